@@ -29,7 +29,9 @@ import (
 	"encoding/base64"
 	"encoding/binary"
 	"encoding/hex"
+	"crypto/x509"
 	"encoding/json"
+	"encoding/pem"
 	"fmt"
 	"math"
 	"math/big"
@@ -51,6 +53,7 @@ type castSpec struct {
 	Priv   string  `json:"priv,omitempty"`   // pool key whose private half is attached ("" = public only)
 	KeyID  *string `json:"keyid,omitempty"`  // key id override
 	Broken string  `json:"broken,omitempty"` // kind of broken key material ("" = sound)
+	Form   string  `json:"form,omitempty"`   // "" = as loaded from PEM by the library; ed-seed | ed-full | literal | literal-alt
 }
 
 type opSpec struct {
@@ -147,6 +150,9 @@ func buildCast(spec castSpec) castKey {
 		k.KeyVal.Private = pool[spec.Priv].Priv.KeyVal.Private
 		coq = "(with_private " + coq + " c04s_" + coqIdent(spec.Priv) + ")"
 	}
+	if spec.Form != "" {
+		k, coq = formKey(spec, kp)
+	}
 	usable := true
 	var pk crypto.PublicKey = kp.Signer.Public()
 	switch spec.Broken {
@@ -196,6 +202,75 @@ func buildCast(spec castSpec) castKey {
 		coq = "(with_keyid " + coq + " " + lib.CoqStr(*spec.KeyID) + ")"
 	}
 	return castKey{Spec: spec, Key: k, Coq: coq, Usable: usable, PubKey: pk}
+}
+
+// formKey builds the key of a pool pair in another SOUND representation:
+//
+//	ed-seed      ed25519 private half as the 32 byte seed (64 hex digits; python-securesystemslib)
+//	ed-full      ed25519 private half as seed||public (128 hex digits)
+//	literal      a Key literal written field by field (not loaded by the library): PKIX public
+//	             PEM / PKCS#8 private PEM, ed25519 hex public / hex seed; key type, scheme and
+//	             key id hash algorithms as the library's defaults
+//	literal-alt  the same with the other private encodings: PKCS#1 "RSA PRIVATE KEY", SEC 1
+//	             "EC PRIVATE KEY", ed25519 seed||public
+func formKey(spec castSpec, kp lib.KeyPair) (intoto.Key, string) {
+	if spec.Priv != "" && spec.Priv != spec.Pub {
+		panic("key forms are for matching pairs")
+	}
+	k := kp.Pub
+	edSeed, edFull := "", ""
+	if sk, ok := kp.Signer.(ed25519.PrivateKey); ok {
+		edSeed = hex.EncodeToString(sk.Seed())
+		edFull = hex.EncodeToString(sk)
+	}
+	pemOf := func(typ string, der []byte) string {
+		return strings.TrimSpace(string(pem.EncodeToMemory(&pem.Block{Type: typ, Bytes: der})))
+	}
+	priv := ""
+	switch spec.Form {
+	case "ed-seed":
+		priv = edSeed
+	case "ed-full":
+		priv = edFull
+	case "literal", "literal-alt":
+		k = intoto.Key{KeyID: kp.Pub.KeyID, KeyIDHashAlgorithms: []string{"sha256", "sha512"}, KeyType: kp.Pub.KeyType, Scheme: kp.Pub.Scheme}
+		switch sk := kp.Signer.(type) {
+		case ed25519.PrivateKey:
+			k.KeyVal.Public = hex.EncodeToString(sk.Public().(ed25519.PublicKey))
+			priv = edSeed
+			if spec.Form == "literal-alt" {
+				priv = edFull
+			}
+		case *rsa.PrivateKey:
+			k.KeyVal.Public = strings.TrimSpace(string(kp.PubPEM))
+			priv = strings.TrimSpace(string(kp.PrivPEM))
+			if spec.Form == "literal-alt" {
+				priv = pemOf("RSA PRIVATE KEY", x509.MarshalPKCS1PrivateKey(sk))
+			}
+		case *ecdsa.PrivateKey:
+			k.KeyVal.Public = strings.TrimSpace(string(kp.PubPEM))
+			priv = strings.TrimSpace(string(kp.PrivPEM))
+			if spec.Form == "literal-alt" {
+				der, err := x509.MarshalECPrivateKey(sk)
+				if err != nil {
+					panic(err)
+				}
+				priv = pemOf("EC PRIVATE KEY", der)
+			}
+		}
+	default:
+		panic("unknown key form " + spec.Form)
+	}
+	if priv == "" {
+		panic("key form " + spec.Form + " does not apply to " + spec.Pub)
+	}
+	k.KeyVal.Private = ""
+	if spec.Priv != "" {
+		k.KeyVal.Private = priv
+	}
+	coq := "(mkKey " + coqS(k.KeyID) + " " + lib.CoqStrList(k.KeyIDHashAlgorithms) + " " + coqS(k.KeyType) + " " +
+		coqS(k.KeyVal.Private) + " " + coqS(k.KeyVal.Public) + " " + coqS(k.KeyVal.Certificate) + " " + coqS(k.Scheme) + ")"
+	return k, coq
 }
 
 // honest: the private half belongs to the public half
@@ -479,6 +554,66 @@ func verbatimLayout(r *lib.Rng, kind string) intoto.Layout {
 	return roundTrip(l)
 }
 
+// nil-versus-empty collections, written as RAW JSON through a generic map so that null
+// stays null whatever the library's marshalling of Link / Layout does
+var nullLinkKinds = []string{"null-all", "empty-all", "null-command", "null-environment", "null-byproducts", "null-materials", "null-products"}
+var nullLayoutKinds = []string{"null-all", "empty-all", "null-step-fields", "empty-step-fields", "null-key-hashalgs"}
+
+func genericOf(v any) map[string]any {
+	var m map[string]any
+	if err := json.Unmarshal(lib.MustJSON(v), &m); err != nil {
+		panic(err)
+	}
+	return m
+}
+
+func nullLink(r *lib.Rng, kind string) json.RawMessage {
+	m := genericOf(genLink(r))
+	lists := []string{"command"}
+	maps := []string{"materials", "products", "byproducts", "environment"}
+	switch kind {
+	case "null-all":
+		for _, f := range append(lists, maps...) {
+			m[f] = nil
+		}
+	case "empty-all":
+		for _, f := range lists {
+			m[f] = []any{}
+		}
+		for _, f := range maps {
+			m[f] = map[string]any{}
+		}
+	default:
+		m[strings.TrimPrefix(kind, "null-")] = nil
+	}
+	return lib.MustJSON(m)
+}
+
+func nullLayout(r *lib.Rng, kind string) json.RawMessage {
+	m := genericOf(genLayout(r))
+	step := m["steps"].([]any)[0].(map[string]any)
+	insp := m["inspect"].([]any)[0].(map[string]any)
+	switch kind {
+	case "null-all":
+		m["steps"], m["inspect"], m["keys"] = nil, nil, nil
+	case "empty-all":
+		m["steps"], m["inspect"], m["keys"] = []any{}, []any{}, map[string]any{}
+	case "null-step-fields":
+		step["pubkeys"], step["expected_command"], step["expected_materials"], step["expected_products"] = nil, nil, nil, nil
+		insp["run"], insp["expected_materials"], insp["expected_products"] = nil, nil, nil
+	case "empty-step-fields":
+		step["pubkeys"], step["expected_command"], step["expected_materials"], step["expected_products"] = []any{}, []any{}, []any{}, []any{}
+		insp["run"], insp["expected_materials"], insp["expected_products"] = []any{}, []any{}, []any{}
+	case "null-key-hashalgs":
+		for _, k := range m["keys"].(map[string]any) {
+			k.(map[string]any)["keyid_hash_algorithms"] = nil
+		}
+	default:
+		panic("nullLayout " + kind)
+	}
+	return lib.MustJSON(m)
+}
+
 func decodePayload(ps payloadSpec) any {
 	if ps.Kind == "link" {
 		var l intoto.Link
@@ -631,7 +766,7 @@ func freshObject(wrapper string, p any) (intoto.Metadata, error) {
 // the bytes the wrapper prescribes for the current content, computed without the
 // in_toto package: canonical JSON (securesystemslib) of the payload, resp. PAE over the
 // base64-decoded payload member of the file
-func prescribedBytes(v fileView, md intoto.Metadata) []byte {
+func prescribedBytes(v fileView, written []byte) []byte {
 	if v.Wrapper == "dsse" {
 		body, err := base64.StdEncoding.DecodeString(v.Payload)
 		if err != nil {
@@ -642,11 +777,9 @@ func prescribedBytes(v fileView, md intoto.Metadata) []byte {
 		}
 		return lib.PAE("application/vnd.in-toto+json", body)
 	}
-	b, err := cjson.EncodeCanonical(md.GetPayload())
-	if err != nil {
-		return nil
-	}
-	return b
+	// Metablock: the REFERENCE canonical form of the document as written (generic JSON
+	// parse, so null stays null and nothing of the library's marshalling is involved)
+	return canonOfBytes(written)
 }
 
 func payloadBody(v fileView) []byte {
@@ -832,7 +965,7 @@ func runCase(in caseInput) (res runResult) {
 			oracleSteps = append(oracleSteps, st+":DUMPED-FILE-READABLE")
 			return
 		}
-		cur := prescribedBytes(v, md)
+		cur := prescribedBytes(v, in.Payloads[curPayload].JSON)
 		allMsgs[string(cur)] = true
 		if w == "dsse" {
 			// the object handed out by GetPayload() must be the content of the bytes the signatures cover
@@ -892,7 +1025,7 @@ func runCase(in caseInput) (res runResult) {
 		switch op.Kind {
 		case "sign":
 			c := cast[op.Key]
-			cur := prescribedBytes(v, md)
+			cur := prescribedBytes(v, in.Payloads[curPayload].JSON)
 			st = lib.Recover(func() string { return status(md.Sign(c.Key)) })
 			if st == "PANIC" {
 				st = "P"
@@ -1007,7 +1140,7 @@ func runCase(in caseInput) (res runResult) {
 				nv.Payload = sv.Payload
 				body = msgs.name(string(payloadBody(sv)))
 			} else {
-				nv.Signed = lib.MustJSON(payloads[pi])
+				nv.Signed = in.Payloads[pi].JSON // the document as written
 			}
 			reload(nv)
 			if st == "T" {
@@ -1072,7 +1205,7 @@ func runCase(in caseInput) (res runResult) {
 			coqOps = append(coqOps, fmt.Sprintf("XDropSig %d%%nat", i))
 		case "addsig":
 			c := cast[op.Key]
-			cur := prescribedBytes(v, md)
+			cur := prescribedBytes(v, in.Payloads[curPayload].JSON)
 			signerKP := pool[c.Spec.Pub]
 			var raw []byte
 			label := c.Key.KeyID
@@ -1084,7 +1217,7 @@ func runCase(in caseInput) (res runResult) {
 			case "stale": // over another content
 				scratch, _ := freshObject(w, payloads[op.Payload])
 				sv, _ := viewOf(scratch)
-				raw = lib.SignRaw(signerKP.Signer, prescribedBytes(sv, scratch))
+				raw = lib.SignRaw(signerKP.Signer, prescribedBytes(sv, in.Payloads[op.Payload].JSON))
 			case "non-canonical": // over json.Marshal of the payload instead of the prescribed bytes
 				b, _ := json.Marshal(md.GetPayload())
 				raw = lib.SignRaw(signerKP.Signer, b)
@@ -1098,6 +1231,10 @@ func runCase(in caseInput) (res runResult) {
 			}
 			s := sigEntry{KeyID: label, Sig: encodeSig(w, raw)}
 			nv := v
+			if w == "legacy" {
+				// the file of another producer: the document as written, not as this library dumps it
+				nv.Signed = in.Payloads[curPayload].JSON
+			}
 			if op.Front {
 				nv.Sigs = append([]sigEntry{s}, v.Sigs...)
 			} else {
@@ -1134,18 +1271,25 @@ func runCase(in caseInput) (res runResult) {
 		}
 	}
 	sort.Strings(rawList)
-	pubs := map[string]crypto.PublicKey{}
-	for _, c := range cast {
+	// verification truth per distinct PUBLIC KEY STRING occurring in the cast
+	type pubEntry struct {
+		coq string
+		pk  crypto.PublicKey
+	}
+	pubs := map[string]pubEntry{}
+	for i, c := range cast {
 		if c.PubKey != nil {
-			pubs[c.Spec.Pub] = c.PubKey
+			if _, ok := pubs[c.Key.KeyVal.Public]; !ok {
+				pubs[c.Key.KeyVal.Public] = pubEntry{fmt.Sprintf("k_public c%d", i), c.PubKey}
+			}
 		}
 	}
 	var vrfy []string
 	for _, pn := range lib.SortedKeys(pubs) {
 		for _, m := range msgList {
 			for _, r := range rawList {
-				if lib.VerifyRaw(pubs[pn], []byte(m), []byte(r)) {
-					vrfy = append(vrfy, "(k_public c04k_"+coqIdent(pn)+", "+msgs.name(m)+", "+raws.name(r)+")")
+				if lib.VerifyRaw(pubs[pn].pk, []byte(m), []byte(r)) {
+					vrfy = append(vrfy, "("+pubs[pn].coq+", "+msgs.name(m)+", "+raws.name(r)+")")
 				}
 			}
 		}
@@ -1173,8 +1317,8 @@ func runCase(in caseInput) (res runResult) {
 	var signable, pbytes []string
 	for i, p := range payloads {
 		if w == "legacy" {
-			b, err := cjson.EncodeCanonical(p)
-			if err == nil {
+			_ = p
+			if b := canonOfBytes(in.Payloads[i].JSON); b != nil {
 				signable = append(signable, fmt.Sprintf("(payload_key p%d, %s)", i, msgs.name(string(b))))
 			}
 		} else {
@@ -1187,8 +1331,8 @@ func runCase(in caseInput) (res runResult) {
 	}
 	var fallback []string
 	for _, pn := range lib.SortedKeys(pubs) {
-		if fp := sshFingerprint(pubs[pn]); fp != "" {
-			fallback = append(fallback, "(k_public c04k_"+coqIdent(pn)+", "+lib.CoqStr(fp)+")")
+		if fp := sshFingerprint(pubs[pn].pk); fp != "" {
+			fallback = append(fallback, "("+pubs[pn].coq+", "+lib.CoqStr(fp)+")")
 		}
 	}
 
@@ -1589,6 +1733,54 @@ func systematic(r *lib.Rng, all bool) []struct {
 		for _, vk := range verbatimLinkKinds {
 			verb("link", vk, verbatimLink(r.Fork(), vk))
 		}
+		for _, vk := range nullLinkKinds {
+			verb("link", vk, nullLink(r.Fork(), vk))
+		}
+		for _, vk := range nullLayoutKinds {
+			verb("layout", vk, nullLayout(r.Fork(), vk))
+		}
+		// nil -> empty (and back) is a CHANGE of the signed content: the old signature must no longer
+		// verify.  (No Coq term: model/Types.v identifies nil and empty lists.)
+		for _, kind := range []string{"link", "layout"} {
+			kind := kind
+			for _, dir := range [][2]string{{"null-all", "empty-all"}, {"empty-all", "null-all"}} {
+				dir := dir
+				each(func(names []string) {
+					emit(w, kind, "nullness-"+dir[0]+"-to-"+dir[1], names, func(in *caseInput) {
+						rr := r.Fork()
+						mk2 := func(k string) json.RawMessage {
+							if kind == "link" {
+								return nullLink(&lib.Rng{}, k)
+							}
+							return nullLayout(&lib.Rng{}, k)
+						}
+						_ = rr
+						in.Payloads = []payloadSpec{{Kind: kind, Field: dir[0], JSON: mk2(dir[0])}, {Kind: kind, Field: dir[1], JSON: mk2(dir[1])}}
+						in.Ops = []opSpec{{Kind: "sign", Key: 0}, {Kind: "dumpload"}, {Kind: "tamper", Payload: 1}, {Kind: "sign", Key: 1}}
+					})
+				})
+			}
+		}
+		// sound keys in other representations on the signing side
+		for _, form := range []string{"ed-seed", "ed-full", "literal", "literal-alt"} {
+			form := form
+			for _, pn := range poolNames {
+				pn := pn
+				isEd := pool[pn].Pub.KeyType == "ed25519"
+				if strings.HasPrefix(form, "ed-") && !isEd {
+					continue
+				}
+				other := "ed1"
+				if pn == "ed1" {
+					other = "ecdsa256"
+				}
+				emit(w, "link", "key-form-"+form, []string{pn, other, "ed2"}, func(in *caseInput) {
+					in.Cast = append(in.Cast, castSpec{Pub: pn, Priv: pn, Form: form}, castSpec{Pub: pn, Form: "literal"})
+					n := len(in.Cast)
+					in.Ops = []opSpec{{Kind: "sign", Key: n - 2}, {Kind: "dumpload"}, {Kind: "sign", Key: 1}, {Kind: "addsig", Key: n - 1, Mut: "independent"}}
+				})
+			}
+		}
 		for _, vk := range verbatimLayoutKinds {
 			verb("layout", vk, verbatimLayout(r.Fork(), vk))
 		}
@@ -1704,6 +1896,9 @@ func put(w *lib.Writer, in caseInput, klass string) {
 		klass = res.Klass
 	}
 	inp := lib.MustJSON(in)
+	if strings.HasPrefix(klass, "nullness-") {
+		res.Coq = "" // the model's lists do not distinguish nil from empty
+	}
 	w.Put(lib.Case{Klass: klass, Input: inp, Impl: res.Impl, Oracle: res.Oracle, CoqModel: res.Coq, Trivial: res.Trivial})
 	if res.LibSigned+res.EnvSteps+res.RtSteps+res.FailOps > 0 {
 		// interoperability / content-preservation line (no model: plain demands of the property)
